@@ -102,6 +102,12 @@ def frame_peaks(fr, cen_entry, case):
         gx = an.centroid[0] * eff * case["sc"] / case["os_c"]
         gy = an.centroid[1] * eff * case["sc"] / case["os_c"]
         cx, cy, v = stubs.argmax_near(cen_entry["cms"], gx, gy)
+        # a tied maximum (centroid equidistant from two cells) is no strict local peak: knife edge
+        cm = cen_entry["cms"]
+        y0, y1, x0, x1 = max(0, cy - 1), min(cm.shape[0], cy + 2), max(0, cx - 1), min(cm.shape[1], cx + 2)
+        nb = cm[y0:y1, x0:x1]
+        if int((nb >= v - 1e-6).sum()) > 1:
+            return None, eff
         out.append((ai, cx, cy, float(v)))
     out.sort(key=lambda t: (t[2], t[1]))
     return out, eff
@@ -135,6 +141,9 @@ def check_topdown(chk, case):
     peaks, tie = [], False
     for fr, ce in zip(frames, cen_b):
         pk, eff = frame_peaks(fr, ce, case)
+        if pk is None:
+            tie = True
+            break
         vals = sorted(v for _, _, _, v in pk)
         if mi is not None and len(pk) > mi and any(b - a < VAL_TIE for a, b in zip(vals, vals[1:])):
             tie = True
